@@ -49,7 +49,8 @@ with cf.ThreadPoolExecutor(max_workers=5) as ex:
         else:
             target = name.split("-")[0]
             if target in props:
-                print("detected    %-8s %s" % (name, props))
+                rules = sorted({f.split("[")[1].split("]")[0] for f in fired if "[" in f and ("["+target+"]" in f or True)})
+                print("detected    %-8s %s rules=%s" % (name, props, ",".join(rules)))
             else:
                 bad += 1; print("MISSED      %-8s (failing: %s)" % (name, props))
 print("%d patches, %d problems" % (len(jobs), bad))
